@@ -77,11 +77,21 @@ if __name__ == "__main__":
         case("visited-and-top", nss, T, "doc:4#top@1", g=12,
              comment="view = a && b reached through an expansion must be allowed (was denied: shared visited set across && operands)")
         case("visited-and-direct", nss, T, "doc:1#view@1", g=12)
+        # wrong ALLOW variant: the parser wraps the first operand in or[..] (evaluated lazily), so the
+        # operand that marks group:10#member must be an eager (second) operand: ok2 = x && a && !banned
+        nss2 = [ns("doc", rel("x", [("group", "member")]), rel("a", [("group", "member")]), rel("banned", [("group", "member")]),
+                   rel("top", [("doc", "ok2")]), perm("ok2", "and", c("x"), c("a"), NOT(c("banned")))), group]
+        T2 = base + ["doc:1#x@1", "doc:1#a@group:10#member", "doc:1#banned@group:10#member", "doc:5#top@doc:1#ok2"]
+        case("visited-not-top2", nss2, T2, "doc:5#top@1", g=12,
+             comment="banned user must be denied through doc:5#top@doc:1#ok2 (was ALLOWED: a marks group:10#member visited, banned is skipped, ! flips)")
+        case("visited-not-direct2", nss2, T2, "doc:1#ok2@1", g=12)
         # F-alias (fixed by 561187c): ("a-b", o, "c") vs ("a", o, "b-c")
-        nss = [ns("n", rel("r", [("a-b", "c"), ("a", "b-c")])), ns("a-b", rel("c")), ns("a", rel("b-c"))]
-        T = ["n:0#r@a-b:0#c", "n:0#r@a:0#b-c", "a:0#b-c@1"]
-        case("alias-1", nss, T, "n:0#r@1", comment="subject sets (a-b,0,c) and (a,0,b-c) must not share a visited key")
-        T = ["n:0#r@a:0#b-c", "n:0#r@a-b:0#c", "a-b:0#c@1"]
+        nss = [ns("n", rel("r", [("a-b", "c"), ("a", "b-c")])), ns("a-b", rel("c", [("a-b", "m")]), rel("m")),
+               ns("a", rel("b-c", [("a", "m")]), rel("m"))]
+        T = ["n:0#r@a-b:0#c", "n:0#r@a:0#b-c", "a:0#b-c@a:0#m", "a:0#m@1"]
+        case("alias-1", nss, T, "n:0#r@1",
+             comment="subject sets (a-b,0,c) and (a,0,b-c) must not share a visited key: whichever is stored second was skipped")
+        T = ["n:0#r@a:0#b-c", "n:0#r@a-b:0#c", "a-b:0#c@a-b:0#m", "a-b:0#m@1"]
         case("alias-2", nss, T, "n:0#r@1")
     elif which == "C02":
         # F-unknown (known finding): banned four hops away, depth 3
